@@ -87,6 +87,7 @@ def run(ctx: Ctx):
     # already cleared the record: the request is offered again while the vehicle is still travelling to it
     assign_holders = {sc.name for sc in states.state_classes(repo) if rules.released_kinds(sc, {"assign"})}
     ctx.attempt(rules.rule_enter_installs, ctx, "D2", "TS.enter-installs", assign_holders)
+    ctx.attempt(rules.rule_activity_writes, ctx, "D2")
     # D3 dispatcher filter
     dispatcher_filter(ctx)
     ctx.floor("TS.pairing", 13)
